@@ -153,6 +153,30 @@ pub fn run(types: &str, input: &str, output: &str) -> Value {
                 "same": same, "other_ok": true, "exp": c["expmask"]})).unwrap();
             records += 1;
         }
+        // a file that does not conform to its own version (loaded leniently under a label in which the item does not exist):
+        // set_version to that very version, and to the neighbours, must still go by the check
+        {
+            let exp: Vec<u64> = c["expmask"].as_array().map(|a| a.iter().filter_map(|b| b.as_u64()).collect()).unwrap_or_default();
+            let foreign: Vec<AutosarVersion> = all.iter().copied().filter(|v| !exp.contains(&((*v as u32).trailing_zeros() as u64))).collect();
+            for w in foreign.iter().take(2).chain(foreign.iter().rev().take(1)) {
+                let rl = relabel(&text, sver, *w);
+                let m = AutosarModel::new();
+                let Ok((f, _)) = m.load_buffer(rl.as_bytes(), "l.arxml", false) else { continue };
+                if f.version() != *w {
+                    continue;
+                }
+                for tv in [*w, sver] {
+                    let (errs, mask) = f.check_version_compatibility(tv);
+                    let m2 = AutosarModel::new();
+                    let Ok((f2, _)) = m2.load_buffer(rl.as_bytes(), "l.arxml", false) else { continue };
+                    let r = f2.set_version(tv).is_ok();
+                    writeln!(out, "{}", json!({"ty": c["ty"], "kind": format!("{}/lenient", c["kind"].as_str().unwrap_or("")), "item": c["item"], "sver": (*w as u32).trailing_zeros(),
+                        "tver": (tv as u32).trailing_zeros(), "srcok": false, "nerr": errs.len(), "maskhas": tv.compatible(mask), "relabel_ok": false, "setver_ok": r,
+                        "after_ok": true, "same": true, "other_ok": true, "exp": c["expmask"]})).unwrap();
+                    records += 1;
+                }
+            }
+        }
         // the same item in a model of two merged files: the check of a file must be the check of that file's own view.
         // Skeleton depths: just the first AR-PACKAGE (the rest arrives below a non-splittable parent), and everything but the last element
         let path: Vec<String> = tj["types"][c["ty"].as_str().unwrap_or("")]["path"].as_array().map(|a| a.iter().filter_map(|s| s.as_str().map(String::from)).collect()).unwrap_or_default();
